@@ -63,15 +63,17 @@ theorem C05_pairs (inp : Input) (hs : inp.srcNew = false) (hd : inp.destNew = fa
     (hu : uniquePairs inp = true) (c : Claim) :
     (c ∈ (plan inp).toStmts ↔
       c.rd ∈ (plan inp).srcFields ∧ c.wr ∈ (plan inp).destFields ∧ inp.nm c.rd c.wr = true ∧ c.wr.isGet = false ∧
+      c.wr.name ∉ inp.manualW ∧
       pairStrat inp.conv (indexed inp.fns) .src .dest c.rd.ty c.wr.ty = some c.strat) ∧
     (c ∈ (plan inp).fromStmts ↔
       c.wr ∈ (plan inp).srcFields ∧ c.rd ∈ (plan inp).destFields ∧ inp.nm c.wr c.rd = true ∧ c.wr.isGet = false ∧
+      c.wr.name ∉ inp.manualR ∧
       pairStrat inp.conv (indexed inp.fns) .dest .src c.rd.ty c.wr.ty = some c.strat) := by
   have hU : Unique (pairs inp.nm (plan inp).srcFields (plan inp).destFields) := by
     simpa [uniquePairs, Unique] using hu
   have hst := plan_plain_st inp hs hd
-  have hto := toC_char inp.conv inp.fns _ hU [] [] 
-  have hfrom := fromC_char inp.conv inp.fns _ hU [] []
+  have hto := toC_char inp.conv inp.fns _ hU inp.manualW inp.manualR
+  have hfrom := fromC_char inp.conv inp.fns _ hU inp.manualW inp.manualR
   constructor
   · have key : c ∈ (plan inp).toStmts ↔ c ∈ (plan inp).st.toC := by
       apply stmts_eq_claims
@@ -90,11 +92,11 @@ theorem C05_pairs (inp : Input) (hs : inp.srcNew = false) (hd : inp.destNew = fa
         exact ((mem_pairs _ _ _ _ _).mp hp1).1
     rw [key, hst, hto]
     constructor
-    · rintro ⟨p, hp, _, hg, s, hs', rfl⟩
+    · rintro ⟨p, hp, hw, hg, s, hs', rfl⟩
       have := (mem_pairs _ _ _ _ _).mp hp
-      exact ⟨this.1, this.2.1, this.2.2, hg, hs'⟩
-    · rintro ⟨h1, h2, h3, h4, h5⟩
-      exact ⟨(c.rd, c.wr), (mem_pairs _ _ _ _ _).mpr ⟨h1, h2, h3⟩, by simp, h4, c.strat, h5, rfl⟩
+      exact ⟨this.1, this.2.1, this.2.2, hg, hw, hs'⟩
+    · rintro ⟨h1, h2, h3, h4, hw, h5⟩
+      exact ⟨(c.rd, c.wr), (mem_pairs _ _ _ _ _).mpr ⟨h1, h2, h3⟩, hw, h4, c.strat, h5, rfl⟩
   · have key : c ∈ (plan inp).fromStmts ↔ c ∈ (plan inp).st.fromC := by
       apply stmts_eq_claims
       · intro c1 h1 c2 h2 e
@@ -112,11 +114,11 @@ theorem C05_pairs (inp : Input) (hs : inp.srcNew = false) (hd : inp.destNew = fa
         exact ((mem_pairs _ _ _ _ _).mp hp1).2.1
     rw [key, hst, hfrom]
     constructor
-    · rintro ⟨p, hp, _, hg, s, hs', rfl⟩
+    · rintro ⟨p, hp, hw, hg, s, hs', rfl⟩
       have := (mem_pairs _ _ _ _ _).mp hp
-      exact ⟨this.1, this.2.1, this.2.2, hg, hs'⟩
-    · rintro ⟨h1, h2, h3, h4, h5⟩
-      exact ⟨(c.wr, c.rd), (mem_pairs _ _ _ _ _).mpr ⟨h1, h2, h3⟩, by simp, h4, c.strat, h5, rfl⟩
+      exact ⟨this.1, this.2.1, this.2.2, hg, hw, hs'⟩
+    · rintro ⟨h1, h2, h3, h4, hw, h5⟩
+      exact ⟨(c.wr, c.rd), (mem_pairs _ _ _ _ _).mpr ⟨h1, h2, h3⟩, hw, h4, c.strat, h5, rfl⟩
 
 /-- the strategy the loop computes is the one the property prescribes: the user's mapper method when
     one with exactly those types exists, else recursive mapping for struct types of the two packages
@@ -135,12 +137,12 @@ theorem C05_strategy (inp : Input) (rdPkg wrPkg : Pkg) (a b : Ty)
     destination field once, C05_write_once). A mapper method T→T would pre-empt the assignment in
     both directions alike (`misStrat_same`). -/
 theorem C05_roundtrip (inp : Input) (hs : inp.srcNew = false) (hd : inp.destNew = false)
-    (hu : uniquePairs inp = true) (c : Claim) (hc : c ∈ (plan inp).toStmts) (ha : c.strat = .assign) :
+    (hm : inp.manualR = []) (hu : uniquePairs inp = true) (c : Claim) (hc : c ∈ (plan inp).toStmts) (ha : c.strat = .assign) :
     c.rd.ty = c.wr.ty ∧ (⟨c.wr, c.rd, .assign⟩ : Claim) ∈ (plan inp).fromStmts := by
-  obtain ⟨h1, h2, h3, _, h5⟩ := ((C05_pairs inp hs hd hu c).1).mp hc
+  obtain ⟨h1, h2, h3, _, _, h5⟩ := ((C05_pairs inp hs hd hu c).1).mp hc
   rw [ha] at h5
   have hsym := pairStrat_assign_symm _ _ _ _ h5
-  refine ⟨hsym.1, ((C05_pairs inp hs hd hu ⟨c.wr, c.rd, .assign⟩).2).mpr ⟨h1, h2, h3, ?_, hsym.2⟩⟩
+  refine ⟨hsym.1, ((C05_pairs inp hs hd hu ⟨c.wr, c.rd, .assign⟩).2).mpr ⟨h1, h2, h3, ?_, by simp [hm], hsym.2⟩⟩
   have : (plan inp).srcFields = sideFields inp.src false := by simp [plan, hs]
   exact (sideFields_plain_flags inp.src c.rd (this ▸ h1)).1
 
